@@ -14,10 +14,12 @@ import (
 	"encoding/json"
 	"errors"
 	"fmt"
+	"os"
 	"runtime"
 	"runtime/debug"
 	"strings"
 	"sync"
+	"sync/atomic"
 	"testing"
 	"time"
 
@@ -32,6 +34,12 @@ import (
 )
 
 func TestMain(m *testing.M) { evid.Main(m, "C06") }
+
+// stepWatchdog: the slowest legitimate step (stack exhaustion under the compiler) takes well
+// under a second, a few seconds on a heavily loaded machine.
+const stepWatchdog = 30 * time.Second
+
+var inReplay atomic.Bool
 
 // Step is one element of a history.
 type Step struct {
@@ -375,6 +383,9 @@ func compareInst(name string, mod api.Module, in *minst) string {
 			return fmt.Sprintf("%s: memory log entry %d is %#x, the model has %#x", name, i, log[i], in.log[i])
 		}
 	}
+	if sc, ok := mod.Memory().Read(scratchAt, 8); !ok || string(sc) != string(in.scratch[:]) {
+		return fmt.Sprintf("%s: the bytes the atomic instructions work on are % x, the model has % x", name, sc, in.scratch[:])
+	}
 	if mod.IsClosed() != in.closed {
 		return fmt.Sprintf("%s: IsClosed()=%v, the model has %v", name, mod.IsClosed(), in.closed)
 	}
@@ -477,6 +488,24 @@ func runCase(c *Case) (msg string, st runStats) {
 	}
 	defer w.rt.Close(ctx)
 	m := newModel(c.NInst)
+	// a step that does not return at all (a contained failure must leave the runtime usable, not
+	// blocked) ends the process; the driver re-runs the journaled history alone
+	var curStep atomic.Int32
+	wd := time.AfterFunc(stepWatchdog, func() {
+		b, _ := json.Marshal(c)
+		k := int(curStep.Load())
+		desc := ""
+		if k < len(c.Steps) {
+			desc = describeOps(c.Steps[k].Ops)
+		}
+		msg := fmt.Sprintf("step %d (%s) of the history did not return within %v on %s: the runtime is blocked after the earlier steps; case: %s", k, desc, stepWatchdog, c.Engine, b)
+		if inReplay.Load() {
+			evid.Violation("replay", c, "%s", msg)
+		}
+		fmt.Fprintf(os.Stderr, "\nfatal error: C06 watchdog: %s\n", msg)
+		os.Exit(3)
+	})
+	defer wd.Stop()
 	// failedFn[i][fn] / failedInst[i]: a failing call was seen on that function object / instance
 	failedFn := map[[2]int]bool{}
 	failedInst := map[int]bool{}
@@ -495,6 +524,8 @@ func runCase(c *Case) (msg string, st runStats) {
 		if s.Inst < 0 || s.Inst >= c.NInst {
 			continue
 		}
+		curStep.Store(int32(k))
+		wd.Reset(stepWatchdog)
 		script := pack(s.Ops)
 		// the context of this step; finish() makes it done once the step has returned, which must
 		// not have any effect: the call is over, whether it succeeded or its failure was contained
@@ -646,7 +677,14 @@ func runCase(c *Case) (msg string, st runStats) {
 		if d := w.checkRegistry(m); d != "" {
 			return where() + ": " + d, st
 		}
-		for _, op := range s.Ops {
+		for i := 0; i < len(s.Ops); i++ {
+			op := s.Ops[i]
+			if isTerminalWithArg(op) {
+				if byte(op) >= opAtomicOK && byte(op) <= opAtomicUnaligned {
+					lbl([]string{"atomic:at-scratch", "atomic:beyond-memory", "atomic:odd-address"}[byte(op)-opAtomicOK])
+				}
+				break // what follows is the argument
+			}
 			if byte(op) >= opRec && byte(op) < opRec+nRecKinds {
 				st.recursions++
 				lbl("recursion:" + recNames[byte(op)-opRec])
@@ -715,7 +753,7 @@ func genOps(t *rapid.T, ninst int, recBudget *int, inStart bool) []int {
 			ops = append(ops, opNestIndirect)
 		}
 	}
-	term := rapid.SampledFrom([]string{"ok", "ok", "ok", "ok", "ok", "ok", "peek", "trap", "trap", "trap", "trap", "panic", "panic", "exit", "rec"}).Draw(t, "terminal")
+	term := rapid.SampledFrom([]string{"ok", "ok", "ok", "ok", "ok", "atomic", "atomic", "peek", "trap", "trap", "trap", "trap", "panic", "panic", "exit", "rec"}).Draw(t, "terminal")
 	via := 0
 	if term == "peek" || term == "panic" || term == "exit" {
 		via = opViaTable * rapid.IntRange(0, 1).Draw(t, "via-table")
@@ -732,6 +770,8 @@ func genOps(t *rapid.T, ninst int, recBudget *int, inStart bool) []int {
 		ops = append(ops, via+opHostPanic+rapid.IntRange(0, nPanicKinds-1).Draw(t, "panic"))
 	case "peek":
 		ops = append(ops, via+opPeek)
+	case "atomic":
+		ops = append(ops, genAtomic(t)...)
 	case "exit":
 		ops = append(ops, via+rapid.SampledFrom([]int{opProcExit, opProcExit, opCloseCont, opCloseTrap, opCloseNoRet}).Draw(t, "exit-kind"),
 			rapid.SampledFrom(exitBytes).Draw(t, "exit-code"))
@@ -740,6 +780,20 @@ func genOps(t *rapid.T, ninst int, recBudget *int, inStart bool) []int {
 		ops = append(ops, opRec+rapid.IntRange(0, nRecKinds-1).Draw(t, "frame"))
 	}
 	return ops
+}
+
+// genAtomic draws an atomic instruction of any kind and width, at the scratch word (success, or
+// the trap of wait on an unshared memory), beyond the memory, or at an odd address.
+func genAtomic(t *rapid.T) []int {
+	sub := rapid.IntRange(0x10, nAtomicSubs-1).Draw(t, "atomic-instruction")
+	if rapid.IntRange(0, 7).Draw(t, "atomic-special") == 0 {
+		sub = rapid.IntRange(0, 3).Draw(t, "notify-wait-fence")
+	}
+	mode := rapid.SampledFrom([]int{0, 0, 0, 1, 1, 2}).Draw(t, "atomic-address")
+	if sub == 0x01 || sub == 0x02 {
+		mode = 0 // wait on an unshared memory traps whatever the address; which trap wins is not specified here
+	}
+	return []int{opAtomicOK + mode, sub}
 }
 
 func genCase(t *rapid.T) *Case {
@@ -785,6 +839,18 @@ func recShare(engine string) int {
 	return 4
 }
 
+// isTerminalWithArg: the script byte after this operation is its argument, not an operation.
+func isTerminalWithArg(op int) bool {
+	b := byte(op)
+	if b >= opAtomicOK && b <= opAtomicUnaligned {
+		return true
+	}
+	if b >= 0x10+opViaTable && b < 0x20+opViaTable {
+		b -= opViaTable
+	}
+	return b == opProcExit || b == opCloseCont || b == opCloseTrap || b == opCloseNoRet
+}
+
 func caseKey(c *Case) uint64 {
 	b, _ := json.Marshal(c)
 	return evid.Key(b)
@@ -827,6 +893,7 @@ func TestReplay(t *testing.T) {
 	if _, err := evid.LoadReplay(p, &rc); err != nil {
 		t.Fatal(err)
 	}
+	inReplay.Store(true)
 	if rc.Frames != nil {
 		if msg := runFrames(rc.Frames); msg != "" {
 			evid.Violation("replay", rc, "%s", msg)
